@@ -18,11 +18,15 @@
   * The address part is an equivalence (`match_iff_spec`); for the type string the
     statement gives a sandwich (`types_sandwich`), the exact behaviour is `types_exact`.
 
-  Two deviations of the code from the statement were found with the proof:
+  Deviations of the code from the statement found with the proof / the correspondence:
   * K2 (fixed, fixes/C05-colon-address.patch): a ':' in the pattern was compared with the
     address, so the address "a:i" matched the pattern "a:i" whatever its arguments.
     The model mirrors the repaired code; `colon_address_counterexample` records what the
     unrepaired cascade did.
+  * the over-read of `rtosc_match_args` behind the type string (fixed,
+    fixes/C05-args-overread.patch): `args_overread_counterexample`; the model mirrors the
+    repaired loop, so no theorem carries a condition on the buffer behind the type string
+    (`msg_total`).
   * K1 (known finding C05-K1): a `{}` group commits to the first alternative that is a
     prefix of the address (no backtracking), so `{a,ab}c` does not match "abc".
     Trigger predicate `Pat.hasPrefixAlts`; `match_complete_counterexample`,
@@ -159,63 +163,92 @@ theorem enum_bound_strict_msg {p : Pat} (hwf : p.WF) {pre post : List Seg} {ds :
   rw [← hex] at this
   simp [full, this]
 
-/-- **types_sandwich**: for a well-formed pattern,
+/-- **msg_total** (memory safety of the whole of `rtosc_match`, after the repair
+    fixes/C05-args-overread.patch): for every pattern of the documented form and every
+    message laid out as `rtosc_amessage` does — *whatever* follows the padded type string,
+    in particular nothing (`rest = []`, a buffer of exactly the message's size) —
+    `rtosc_match` returns a verdict without reading outside the pattern or the message. -/
+theorem msg_total {p : Pat} (hwf : p.WF0) {addr tags : Bytes} (rest : Bytes)
+    (ha : NulFree addr) (hb : IdxBounded addr) (ht : NulFree tags) :
+    ∃ r, full p.cstr (mkMsg addr tags rest) = some r := by
+  obtain ⟨ex, _, hfull⟩ := full_rendered hwf rest ha hb ht
+  rw [hfull]
+  cases greedy p.segs p.sub addr with
+  | none => exact ⟨_, rfl⟩
+  | some t => exact ⟨_, rfl⟩
+
+/-- **msg_sound** (the "no … ever matches" half for whole messages, for *every* pattern
+    of the documented form, prefix-related alternatives included): a message that
+    `rtosc_match` accepts has an address that spells the pattern, and — if the pattern
+    gives type alternatives — a type string equal to or an extension of one of them. -/
+theorem msg_sound {p : Pat} (hwf : p.WF0) {addr tags : Bytes} (rest : Bytes)
+    (ha : NulFree addr) (hb : IdxBounded addr) (ht : NulFree tags)
+    (hm : MsgMatches p.cstr (mkMsg addr tags rest)) : SpecMayMatch p addr tags := by
+  obtain ⟨ex, hex, hfull⟩ := full_rendered hwf rest ha hb ht
+  cases hg : greedy p.segs p.sub addr with
+  | none => simp only [hg] at hfull; simp [MsgMatches, hfull] at hm
+  | some t =>
+    have hps : PathSpec p addr :=
+      match_sound hwf ex ha hb ⟨(renderTypes p.types ++ [0], t ++ 0 :: ex), by
+        rw [path_rendered hwf ex ha hb, hg]⟩
+    refine ⟨hps, ?_⟩
+    intro ts htypes
+    simp only [hg, htypes] at hfull
+    have htw := wf0_types hwf
+    simp only [htypes, typesWf, Bool.and_eq_true, Bool.not_eq_eq_eq_not, Bool.not_true,
+      List.isEmpty_eq_false_iff] at htw
+    simp only [MsgMatches, hfull, Option.map_some, Option.some.injEq] at hm
+    exact typesCode_loose htw.1 hm
+
+/-- **msg_complete_partial**: a message whose address spells the pattern and whose type
+    string is one of the alternatives (any type string if the pattern gives none) is
+    accepted, provided no `{}` group has an alternative that is a proper prefix of
+    another one (trigger of finding C05-K1).  No condition on the buffer behind the type
+    string any more. -/
+theorem msg_complete_partial {p : Pat} (hwf : p.WF0) (hk1 : p.hasPrefixAlts = false)
+    {addr tags : Bytes} (rest : Bytes)
+    (ha : NulFree addr) (hb : IdxBounded addr) (ht : NulFree tags)
+    (hs : SpecMatch p addr tags) : MsgMatches p.cstr (mkMsg addr tags rest) := by
+  obtain ⟨ex, hex, hfull⟩ := full_rendered hwf rest ha hb ht
+  obtain ⟨hps, hty⟩ := hs
+  obtain ⟨r, hr⟩ := match_complete_partial hwf hk1 ex ha hb hps
+  rw [path_rendered hwf ex ha hb] at hr
+  cases hg : greedy p.segs p.sub addr with
+  | none => simp [hg] at hr
+  | some t =>
+    simp only [hg] at hfull
+    cases htypes : p.types with
+    | none => simp only [htypes] at hfull; simp [MsgMatches, hfull]
+    | some ts =>
+      simp only [htypes] at hfull
+      simp [MsgMatches, hfull, typesCode_of_mem (hty ts htypes)]
+
+/-- **types_sandwich**: for a well-formed pattern and any buffer content `rest` behind the
+    message's type string (none at all included),
     (left) a message whose address spells the pattern and whose type string equals one
-    of the alternatives (or any type string if the pattern gives none) matches —
-    provided the buffer behind the type string is at least as long as the longest
-    alternative (`ArgsInBounds`, see `args_reads_past_type_string`);
+    of the alternatives (or any type string if the pattern gives none) matches;
     (right) a message that matches has such an address, and its type string is equal to
-    or an extension of one of the alternatives.  (right) needs neither the buffer
-    condition nor the K1 exclusion. -/
+    or an extension of one of the alternatives.  (right) holds for every pattern of the
+    documented form (`msg_sound`); (left) needs the K1 exclusion only
+    (`msg_complete_partial`). -/
 theorem types_sandwich {p : Pat} (hwf : p.WF) {addr tags : Bytes} (rest : Bytes)
     (ha : NulFree addr) (hb : IdxBounded addr) (ht : NulFree tags) :
-    (ArgsInBounds p (tags.length + 1 + rest.length) → SpecMatch p addr tags →
-        MsgMatches p.cstr (mkMsg addr tags rest)) ∧
+    (SpecMatch p addr tags → MsgMatches p.cstr (mkMsg addr tags rest)) ∧
     (MsgMatches p.cstr (mkMsg addr tags rest) → SpecMayMatch p addr tags) := by
-  obtain ⟨ex, k, hex, hfull⟩ := full_rendered (wf_wf0 hwf) rest ha hb ht
-  have hiff := match_iff_spec hwf ex ha hb
-  rw [PathMatches, path_rendered (wf_wf0 hwf) ex ha hb] at hiff
-  constructor
-  · intro hbound ⟨hps, hty⟩
-    cases hg : greedy p.segs p.sub addr with
-    | none => simp [hg] at hiff; exact absurd hps hiff
-    | some t =>
-      simp only [hg] at hfull
-      cases htypes : p.types with
-      | none => simp only [htypes] at hfull; simp [MsgMatches, hfull]
-      | some ts =>
-        simp only [htypes] at hfull
-        rcases hfull with h | ⟨_, a, haa, hlen⟩
-        · simp [MsgMatches, h, typesCode_of_mem (hty ts htypes)]
-        · have := hbound ts htypes a haa
-          simp only [List.length_append, List.length_cons, List.length_replicate] at hlen
-          omega
-  · intro hm
-    cases hg : greedy p.segs p.sub addr with
-    | none => simp only [hg] at hfull; simp [MsgMatches, hfull] at hm
-    | some t =>
-      have hps : PathSpec p addr := hiff.mp ⟨(renderTypes p.types ++ [0], t ++ 0 :: ex), by simp [hg]⟩
-      refine ⟨hps, ?_⟩
-      intro ts htypes
-      simp only [hg, htypes] at hfull
-      have htw := wf0_types (wf_wf0 hwf)
-      simp only [htypes, typesWf, Bool.and_eq_true, Bool.not_eq_eq_eq_not, Bool.not_true,
-        List.isEmpty_eq_false_iff] at htw
-      rcases hfull with h | ⟨h, _⟩
-      · simp only [MsgMatches, h, Option.map_some, Option.some.injEq] at hm
-        exact typesCode_loose htw.1 hm
-      · simp [MsgMatches, h] at hm
+  have hpf : p.hasPrefixAlts = false := by
+    have := wf_prefixFree hwf
+    simpa [Pat.hasPrefixAlts, Pat.prefixFree] using this
+  exact ⟨msg_complete_partial (wf_wf0 hwf) hpf rest ha hb ht, msg_sound (wf_wf0 hwf) rest ha hb ht⟩
 
 /-- **types_exact**: what the type matcher really does — every alternative but the last
     must equal the type string, the last one matches every extension of itself (an
     empty last alternative matches only the empty type string). -/
 theorem types_exact {p : Pat} (hwf : p.WF) {addr tags : Bytes} (rest : Bytes)
-    (ha : NulFree addr) (hb : IdxBounded addr) (ht : NulFree tags)
-    (hbound : ArgsInBounds p (tags.length + 1 + rest.length)) :
+    (ha : NulFree addr) (hb : IdxBounded addr) (ht : NulFree tags) :
     MsgMatches p.cstr (mkMsg addr tags rest) ↔
       PathSpec p addr ∧ ∀ ts, p.types = some ts →
         tags ∈ ts ∨ ∃ l, ts.getLast? = some l ∧ l ≠ [] ∧ l <+: tags := by
-  obtain ⟨ex, k, hex, hfull⟩ := full_rendered (wf_wf0 hwf) rest ha hb ht
+  obtain ⟨ex, hex, hfull⟩ := full_rendered (wf_wf0 hwf) rest ha hb ht
   have hiff := match_iff_spec hwf ex ha hb
   rw [PathMatches, path_rendered (wf_wf0 hwf) ex ha hb] at hiff
   cases hg : greedy p.segs p.sub addr with
@@ -233,13 +266,9 @@ theorem types_exact {p : Pat} (hwf : p.WF) {addr tags : Bytes} (rest : Bytes)
       have htw := wf0_types (wf_wf0 hwf)
       simp only [htypes, typesWf, Bool.and_eq_true, Bool.not_eq_eq_eq_not, Bool.not_true,
         List.isEmpty_eq_false_iff] at htw
-      rcases hfull with h | ⟨_, a, haa, hlen⟩
-      · simp only [MsgMatches, h, Option.map_some, Option.some.injEq, hps, true_and,
-          forall_eq']
-        exact typesCode_exact htw.1
-      · have := hbound ts htypes a haa
-        simp only [List.length_append, List.length_cons, List.length_replicate] at hlen
-        omega
+      simp only [MsgMatches, hfull, Option.map_some, Option.some.injEq, hps, true_and,
+        forall_eq']
+      exact typesCode_exact htw.1
 
 /-- **copies_agree**: the two further copies of the type matcher in ports.cpp compute,
     on every pattern and every buffer (no well-formedness needed), exactly what
@@ -312,14 +341,18 @@ theorem atoi_wraps :
     PathMatches ([35, 50] ++ [0]) ([52, 50, 57, 52, 57, 54, 55, 50, 57, 54] ++ [0]) :=
   ⟨([0], [0]), by decide⟩
 
-/-- `rtosc_match_args` keeps advancing `arg_str` after the type string has ended: with
-    the pattern `a:iiii` and the argument-less message "a\0\0\0,\0\0\0" in a buffer of
-    exactly its eight bytes the comparison leaves the buffer (the result, were the
-    read allowed, is `false`: with one spare byte it is). -/
-theorem args_reads_past_type_string :
-    full ([97, 58, 105, 105, 105, 105] ++ [0]) (mkMsg [97] [] []) = none ∧
-    (full ([97, 58, 105, 105, 105, 105] ++ [0]) (mkMsg [97] [] [0])).map (·.1) = some false := by
-  constructor <;> decide
+/-- **args_overread_counterexample** (genuine defect, repaired by
+    fixes/C05-args-overread.patch): the unrepaired `rtosc_match_args` advanced and read
+    `arg_str` once per pattern character, also behind the NUL of the type string.  With the
+    pattern `a:iiii` and the argument-less message "a\0\0\0,\0\0\0" in a buffer of exactly
+    its eight bytes the comparison left the buffer (ASan: heap-buffer-overflow READ at
+    dispatch.c:124); the repaired loop (the model of this file) stops at the NUL and
+    answers `false`. -/
+theorem args_overread_counterexample :
+    (argString (mkMsg [97] [] [])).bind (argsUnfixed [58, 105, 105, 105, 105, 0]) = none ∧
+    (argString (mkMsg [97] [] [])).bind (args [58, 105, 105, 105, 105, 0]) = some false ∧
+    full ([97, 58, 105, 105, 105, 105] ++ [0]) (mkMsg [97] [] []) = some (false, some [0, 0, 0, 44, 0, 0, 0]) := by
+  refine ⟨by decide, by decide, by decide⟩
 
 /-! ### Non-vacuity -/
 
@@ -361,8 +394,11 @@ example : SpecMatch exPat exAddr [102, 102] :=
 
 example : MsgMatches exPat.cstr (mkMsg exAddr [102, 102] [0, 0, 0, 0, 0, 0, 0, 0]) := by decide
 example : ¬ MsgMatches exPat.cstr (mkMsg exAddr [102] [0, 0, 0, 0]) := by decide
-example : ArgsInBounds exPat ([102, 102].length + 1 + 8) := by
-  intro ts h; cases h; decide
+/-- a message in a buffer of exactly its size (no byte behind the padded type string) and a
+    pattern whose alternatives are longer than the type string: decided, no out-of-bounds read -/
+example : ¬ MsgMatches exPat.cstr (mkMsg exAddr [102] []) := by decide
+example : (full exPat.cstr (mkMsg exAddr [102] [])).isSome = true := by decide
+example : MsgMatches exPat.cstr (mkMsg exAddr [] []) := by decide
 
 /-- an instance of `enum_bound_strict`: index 12 is not below 12 -/
 example : path exPat.cstr ([97, 98, 49, 50, 47, 99, 120, 47] ++ [0]) = .fail := by decide
